@@ -1194,6 +1194,14 @@ def judge_ipl(sess, x, y, t, res, monitor="M-ipl"):
                         missing_knot = j
                         break
             sess.check(monitor, missing_knot is None, "a crossing through a knot has no returned solution", w(knot=missing_knot), sig=sig, key="ipl-complete-knot")
+            # an interior sample that touches the target from one side (a strict peak or valley exactly at t) is a solution at x[j]
+            missing_touch = None
+            for j in range(1, n - 1):
+                if yl[j] == tv and (yl[j - 1] - tv) * (yl[j + 1] - tv) > 0 and xl[j - 1] < xl[j] < xl[j + 1]:
+                    if not np.any(np.abs(s - xl[j]) <= eps_x):
+                        missing_touch = j
+                        break
+            sess.check(monitor, missing_touch is None, "an interior sample touching the target (strict peak / valley at t) has no returned solution", w(knot=missing_touch), sig=sig, key="ipl-complete-touch")
         else:
             ok = len(s) == 1
             if ok:
